@@ -15,7 +15,6 @@ package c05
 
 import (
 	"crypto/sha256"
-	"encoding/hex"
 	"fmt"
 	"io"
 	"os"
@@ -62,20 +61,22 @@ type scenario struct {
 	Name    string
 	Threads []threadSpec
 	Bound   int  // preemption bound, -1 = complete space
+	Glue    bool // operations on request-private keys take no scheduling point of their own (see vstore.gluePrivate)
 	Big     bool // explored by all shards together (level-1 subtrees dealt round-robin)
 }
 
 type replayCase struct {
-	Item     string          `json:"item"`
-	Schedule []int           `json:"schedule,omitempty"`
-	Trace    []string        `json:"trace,omitempty"`
-	Status   []int           `json:"status,omitempty"`
-	First    string          `json:"first_at,omitempty"`
-	Replay   string          `json:"replay_at,omitempty"`
-	Requests map[string]any  `json:"requests,omitempty"`
+	Item     string         `json:"item"`
+	Schedule []int          `json:"schedule,omitempty"`
+	Trace    []string       `json:"trace,omitempty"`
+	Status   []int          `json:"status,omitempty"`
+	First    string         `json:"first_at,omitempty"`
+	Replay   string         `json:"replay_at,omitempty"`
+	Requests map[string]any `json:"requests,omitempty"`
 }
 
 type harness struct {
+	rotation map[string]int // per jointly explored scenario: rotation of the worker numbers
 	t        *testing.T
 	r        *ev.Run
 	w        *world
@@ -147,18 +148,28 @@ func same(k *kindSpec, n int) []threadSpec {
 
 func (h *harness) scenarios(ks map[string]*kindSpec) []*scenario {
 	var out []*scenario
+	thorough := h.r.Thorough()
 	for _, kn := range kindOrder {
 		k := ks[kn]
 		out = append(out, &scenario{K: k, Name: kn + "/2same", Threads: same(k, 2), Bound: -1})
 		s3 := &scenario{K: k, Name: kn + "/3same", Threads: same(k, 3), Bound: -1, Big: kn == "code" || kn == "vp-nonce"}
 		so := &scenario{K: k, Name: kn + "/2same+other", Bound: -1, Big: kn == "code" || kn == "vp-nonce",
 			Threads: append(same(k, 2), threadSpec{Name: "other", Req: k.GoodB, Honest: true})}
-		if kn == "vp-nonce" && !h.r.Thorough() {
-			// 3 x 5 store operations: 756 756 interleavings; the quick tier explores them up to a preemption bound,
-			// the thorough tier completely
-			s3.Bound, so.Bound = 3, 3
+		if kn == "vp-nonce" {
+			// 3 x 5 store operations would be up to 756 756 interleavings (> 24 min on 16 cores, measured). The fifth
+			// operation stores the freshly generated authorization code under a key no other request can name; it
+			// commutes with everything, so it is glued to the fourth: 3 x 4 operations, complete.
+			s3.Glue, so.Glue = true, true
 		}
-		out = append(out, s3, so)
+		out = append(out, s3)
+		if kn != "vp-nonce" || thorough {
+			out = append(out, so)
+		}
+		if thorough && kn != "code" && kn != "vp-nonce" {
+			// beyond the quantifier (2 or 3 requests): 4 requests for the kinds with 2 operations per request (the s2s
+			// request's third operation stores the new access token under a private key and is glued)
+			out = append(out, &scenario{K: k, Name: kn + "/4same", Threads: same(k, 4), Bound: -1, Glue: kn == "s2s-nonce"})
+		}
 	}
 	// failed redemption attempts racing with correct ones (only the at-most-one clause applies while they race)
 	k := ks["code"]
@@ -166,6 +177,14 @@ func (h *harness) scenarios(ks map[string]*kindSpec) []*scenario {
 		bad := threadSpec{Name: "bad", Req: h.w.codeReq("CODE-A", way), Same: true}
 		out = append(out, &scenario{K: k, Name: "code/fail:" + way + "+1good", Bound: -1, Threads: append([]threadSpec{bad}, same(k, 1)...)})
 		out = append(out, &scenario{K: k, Name: "code/fail:" + way + "+2good", Bound: -1, Threads: append([]threadSpec{bad}, same(k, 2)...)})
+	}
+	if thorough {
+		// one stored request object fetched through both methods at once (the wrong method fails but consumes)
+		g := ks["reqobj-get"]
+		out = append(out, &scenario{K: g, Name: "reqobj-get/get+post+get", Bound: -1, Threads: []threadSpec{
+			{Name: "get0", Req: g.Good, Same: true, Honest: true},
+			{Name: "post", Req: h.w.requestObjectReq("RO-A", "post"), Same: true},
+			{Name: "get1", Req: g.Good, Same: true, Honest: true}}})
 	}
 	return out
 }
@@ -202,8 +221,15 @@ func (h *harness) judge(sc *scenario, x *sched.Exec, st *vstore, out []response,
 	zero := st.zeroOps
 	ops := st.managedOps()
 	// attribute every logged operation to its thread: a thread's start step performs its first operation (merged),
-	// every later step performs exactly the operation whose label the thread was parked at
+	// every later step performs exactly the operation whose label the thread was parked at; operations glued to the
+	// previous one (request-private keys, see vstore.gluePrivate) belong to the same step
 	var tids []int
+	take := func(id int) {
+		tids = append(tids, id)
+		for len(tids) < len(ops) && ops[len(tids)].Glued {
+			tids = append(tids, id)
+		}
+	}
 	for _, tr := range x.Trace {
 		i := strings.IndexByte(tr, ':')
 		id, _ := strconv.Atoi(tr[1:i])
@@ -215,16 +241,27 @@ func (h *harness) judge(sc *scenario, x *sched.Exec, st *vstore, out []response,
 			if j >= len(ops) || !ops[j].Merged {
 				return verdict{}, fmt.Errorf("start step of thread %d: its first operation is not in the log", id)
 			}
-			tids = append(tids, id)
+			take(id)
 			continue
 		}
-		tids = append(tids, id)
-		if j < len(ops) && (ops[j].Merged || !strings.HasPrefix(tr[i+1:], ops[j].Op+" ")) {
-			return verdict{}, fmt.Errorf("trace step %q does not match logged operation %s %s", tr, ops[j].Op, ops[j].Key)
+		if j >= len(ops) || ops[j].Merged || ops[j].Glued || !strings.HasPrefix(tr[i+1:], ops[j].Op+" ") {
+			return verdict{}, fmt.Errorf("trace step %q does not match the logged operations (position %d of %d)", tr, j, len(ops))
 		}
+		take(id)
 	}
 	if len(tids) != len(ops) {
 		return verdict{}, fmt.Errorf("%d scheduled operations but %d logged", len(tids), len(ops))
+	}
+	// the independence argument behind glued operations: their keys are private to one request
+	owner := map[string]int{}
+	for i, o := range ops {
+		if _, named := st.alias[o.Key]; named {
+			continue
+		}
+		if t, seen := owner[o.Key]; seen && t != tids[i] && st.gluePrivate {
+			return verdict{}, fmt.Errorf("key %s, treated as private to one request, was accessed by threads %d and %d", st.name(o.Key), t, tids[i])
+		}
+		owner[o.Key] = tids[i]
 	}
 	// abstract states passed through: per-thread history of (op, key, result) + abstract store content
 	if states != nil {
@@ -297,6 +334,7 @@ func (h *harness) runSchedule(sc *scenario, o sched.Options, each func(x *sched.
 		st := w.fresh(sc.K.Alias)
 		sc.K.Seed()
 		st.runFrom = len(st.log)
+		st.gluePrivate = sc.Glue
 		st.zeroOps = make([]bool, len(sc.Threads))
 		out := make([]response, len(sc.Threads))
 		for i, th := range sc.Threads {
@@ -328,6 +366,7 @@ func (h *harness) explore(sc *scenario, replay []int) {
 	shard, nsh := 0, 1
 	if sc.Big && replay == nil {
 		shard, nsh = r.Shard()
+		shard = (shard - h.rotation[sc.Name]%nsh + nsh) % nsh
 	}
 	states := stateSet{}
 	var steps int64
@@ -387,6 +426,9 @@ func (h *harness) explore(sc *scenario, replay []int) {
 	r.States(int64(len(states)))
 	r.Transitions(steps)
 	b := "complete"
+	if sc.Glue {
+		b = "complete up to commuting of operations on request-private keys"
+	}
 	if sc.Bound >= 0 {
 		b = "preemptions<=" + strconv.Itoa(sc.Bound)
 	}
@@ -419,7 +461,7 @@ func seqState(k *kindSpec, st *vstore) string {
 		return "mark-live"
 	}
 	for _, o := range st.log {
-		if o.Op == "set" && o.Key == k.Secret {
+		if (o.Op == "set" || o.Op == "setnx" && !o.Found) && o.Key == k.Secret {
 			return "mark-expired"
 		}
 	}
@@ -623,9 +665,70 @@ func (h *harness) timeCases(ks map[string]*kindSpec) []timeCase {
 // ------------------------------------------------------------------ the test
 
 type item struct {
-	name string
-	big  bool
-	run  func()
+	name   string
+	big    bool // explored by all workers together
+	weight int  // rough cost estimate, used only to spread the items over the workers
+	run    func()
+}
+
+// estimate: upper bound of the number of interleavings (multinomial of the per-thread operation counts) times a
+// per-execution cost factor. Only used for load balancing.
+func estimate(sc *scenario) int {
+	ops := map[string]int{"code": 4, "reqobj-get": 2, "reqobj-post": 2, "dpop-jti": 2, "s2s-nonce": 3, "vp-nonce": 5}[sc.K.Kind]
+	cost := map[string]int{"code": 1, "reqobj-get": 2, "reqobj-post": 2, "dpop-jti": 1, "s2s-nonce": 4, "vp-nonce": 6}[sc.K.Kind]
+	if sc.Glue {
+		ops--
+	}
+	n, total := 1, 0
+	for _, th := range sc.Threads {
+		k := ops
+		if !th.Honest {
+			k = 2
+		}
+		for i := 1; i <= k; i++ {
+			total++
+			n = n * total / i
+		}
+	}
+	return n * cost
+}
+
+// bigShare: measured share of a jointly explored scenario that lands on the worker with (rotated) number 0, 1, 2, 3
+// when sched.Explore deals the level-1 subtrees round-robin (the subtrees of the first choice points are the largest).
+var bigShare = []float64{0.34, 0.34, 0.17, 0.13}
+
+// assign spreads the work: every jointly explored scenario gets its own rotation of the worker numbers, so that the
+// heavy subtrees of different scenarios land on different workers; the other items are dealt longest first, each to
+// the least loaded worker. Deterministic, and identical in every worker.
+func assign(items []item, nsh int) (owner map[string]int, rotation map[string]int) {
+	owner, rotation = map[string]int{}, map[string]int{}
+	load := make([]float64, nsh)
+	nbig := 0
+	var order []int
+	for i, it := range items {
+		if !it.big {
+			order = append(order, i)
+			continue
+		}
+		rot := (4 * nbig) % nsh
+		nbig++
+		rotation[it.name] = rot
+		for v, sh := range bigShare {
+			load[(v+rot)%nsh] += sh * float64(it.weight)
+		}
+	}
+	sort.SliceStable(order, func(a, b int) bool { return items[order[a]].weight > items[order[b]].weight })
+	for _, i := range order {
+		best := 0
+		for s := 1; s < nsh; s++ {
+			if load[s] < load[best] {
+				best = s
+			}
+		}
+		load[best] += float64(items[i].weight + 1)
+		owner[items[i].name] = best
+	}
+	return
 }
 
 func TestVerifC05(t *testing.T) {
@@ -656,7 +759,7 @@ func TestVerifC05(t *testing.T) {
 	var items []item
 	for _, sc := range h.scenarios(ks) {
 		sc := sc
-		items = append(items, item{name: sc.Name, big: sc.Big, run: func() { h.explore(sc, nil) }})
+		items = append(items, item{name: sc.Name, big: sc.Big, weight: estimate(sc), run: func() { h.explore(sc, nil) }})
 	}
 	for _, kn := range kindOrder {
 		k, name := ks[kn], "seq/"+kn
@@ -669,7 +772,7 @@ func TestVerifC05(t *testing.T) {
 	items = append(items, item{name: "seq/code/refused-before-handler", run: func() { h.refusedBeforeHandler(ks["code"]) }})
 	for _, tc := range h.timeCases(ks) {
 		tc := tc
-		items = append(items, item{name: tc.Name, run: func() { h.timeGrid(tc) }})
+		items = append(items, item{name: tc.Name, weight: 100 * len(tc.First), run: func() { h.timeGrid(tc) }})
 	}
 
 	var rc replayCase
@@ -703,10 +806,11 @@ func TestVerifC05(t *testing.T) {
 		}
 	}
 
-	idx := 0
+	shard, nsh := r.Shard()
+	mine, rotation := assign(items, nsh)
+	h.rotation = rotation
 	for _, it := range items {
-		idx++
-		if !it.big && !r.Mine(idx) {
+		if !it.big && mine[it.name] != shard {
 			continue
 		}
 		if r.Expired() {
@@ -714,5 +818,4 @@ func TestVerifC05(t *testing.T) {
 		}
 		it.run()
 	}
-	_ = hex.EncodeToString
 }
